@@ -51,7 +51,7 @@ func (r *Rng) Scalar(c *GenCfg) interface{} {
 
 func (r *Rng) Key(c *GenCfg) string {
 	if c.OddKeys && r.P(15) {
-		return r.Pick([]string{"", ".", "a.b", "[0]", "*", "a[1]", "!", "-", "#", " "})
+		return r.Pick([]string{"", ".", "a.b", "[0]", "*", "a[1]", "!", "-", "#", " ", "k]", "]", "a]b"})
 	}
 	return r.Pick(c.Keys)
 }
